@@ -37,6 +37,7 @@ NAMING SCHEME (stable; other models import these):
     def consts : List (String × String × Nat)       every constant, source order (files sorted by path)
     def privateConsts : List (String × String)      the ones not reachable through the public API
     def flagTypes : List (String × Nat)             bitflags types with their bit width
+    def flagCounts : List (String × Nat)            number of constants inside each bitflags! block
     def allBits (ty : String) : Nat                 OR of all constants of type `ty` (bitflags `all()`)
     def lookup (ty name : String) : Option Nat
 """
@@ -966,6 +967,13 @@ def render_lean(ex):
     L.append(",\n".join(f'  ("{t}", {w})' for t, w in ex.flag_types.items()))
     L.append("]")
     L.append("")
+    L.append("/-- Number of constants declared inside each `bitflags!` block (what `Flags::FLAGS` of the compiled")
+    L.append("type enumerates; presets and `default` are associated items outside the block). -/")
+    L.append("def flagCounts : List (String × Nat) := [")
+    L.append(",\n".join(f'  ("{t}", {sum(1 for d in ex.defs.values() if d.ty == t and d.kind == "flag")})'
+                        for t in ex.flag_types))
+    L.append("]")
+    L.append("")
     L.append("def lookup (ty name : String) : Option Nat :=")
     L.append("  (consts.find? (fun c => c.1 == ty && c.2.1 == name)).map (·.2.2)")
     L.append("")
@@ -1016,6 +1024,17 @@ def render_rust(ex):
         if readable(ex, d):
             R.append(f'    v.push(("{d.ty}", "{d.name}", {d.rust}));')
             n += 1
+    R.append("    v")
+    R.append("}")
+    R.append("")
+    R.append("/// Independent enumeration: the named flags of every bitflags type as the COMPILED crate lists them")
+    R.append("/// (`bitflags::Flags::FLAGS`), so a constant the text-level extractor missed or mis-named shows up.")
+    R.append("pub fn flag_types() -> Vec<(&'static str, Vec<(&'static str, u64)>)> {")
+    R.append("    let mut v: Vec<(&'static str, Vec<(&'static str, u64)>)> = Vec::new();")
+    for t in ex.flag_types:
+        if ex.type_public.get(t):
+            R.append(f'    v.push(("{t}", <{t} as bitflags::Flags>::FLAGS.iter()'
+                     f'.map(|f| (f.name(), f.value().bits() as u64)).collect()));')
     R.append("    v")
     R.append("}")
     R.append("")
